@@ -29,7 +29,7 @@ def sched_job(run, binary, cf, sc, warm, max_sched, chunk=250):
             if summary is None:
                 raise core.Inconclusive("cache schedule driver did not finish")
             viol += v
-            for k in ("traces", "events", "deadlocks", "panics"):
+            for k in ("traces", "events", "deadlocks", "panics", "transient_blocks_resolved_by_patience"):
                 tot[k] += summary[k]
             with open(part) as fh:
                 out.write(fh.read())
